@@ -255,9 +255,10 @@ def r07_4(chk, u3, rel3):
                    sample='fg call #%d passes a %s' % (k + 1, cls))
     # component lists: forces_skin for the skin; s.flange.forces / s.base.forces for the stiffeners
     lists = []
-    for lp in ast.walk(fn):
-        if isinstance(lp, ast.For) and isinstance(lp.iter, ast.Call) and getattr(lp.iter.func, 'id', '') == 'enumerate':
-            lists.append(norm(lp.iter.args[0]))
+    for lp in sorted([x for x in ast.walk(fn) if isinstance(x, ast.For)], key=lambda x: x.lineno):
+        it = lp.iter.args[0] if isinstance(lp.iter, ast.Call) and getattr(lp.iter.func, 'id', '') == 'enumerate' and lp.iter.args else lp.iter
+        if norm(it).endswith('forces_skin') or norm(it).endswith('.forces'):
+            lists.append(norm(it))
     chk.ob('R07.4', lists == ['self.forces_skin', 's.flange.forces', 's.base.forces', 's.flange.forces'], BAY, 'StiffPanelBay.calc_fext',
            'force lists per component', got=lists)
     c13.fext_layout(chk) if False else None
@@ -267,35 +268,80 @@ def r07_5(chk):
     m = module(SPARSE)
     fn = m.function('solve')
     a, b = fn.args.args[0].arg, fn.args.args[1].arg
-    src = [norm(s) for s in fn.body if not isinstance(s, ast.Expr)]
-    want = ['%s,used_cols=remove_null_cols(%s,silent=silent)' % (a, a), 'px=spsolve(%s,%s[used_cols],**kwargs)' % (a, b),
-            'x=np.zeros(%s.shape[0],dtype=%s.dtype)' % (b, b), 'x[used_cols]=px', 'returnx']
-    alloc_ok = {'x=np.zeros(%s.shape[0],dtype=%s.dtype)' % (b, b), 'x=np.zeros_like(%s)' % b, 'x=np.zeros(%s.shape,dtype=%s.dtype)' % (b, b), 'x=np.zeros(len(%s),dtype=%s.dtype)' % (b, b)}
-    ok = len(src) == 5 and src[0] == want[0] and src[1] == want[1] and src[2] in alloc_ok and src[3:] == want[3:]
-    chk.ob('R07.5', ok, SPARSE, 'solve', 'reduce, solve, scatter through the same index set', expected=want, got=src,
-           sample='solve: ' + '; '.join(src))
+    # value sets (vcheck/symval.py): whatever the temporaries are called, the function must compute
+    #   (A, U) = remove_null_cols(a);  x = zeros like b;  x[U] = spsolve(A, b[U]);  return x
+    from .symval import Flow
+    fl = Flow(fn)
+    fl.run()
+    rn = 'remove_null_cols(%s, silent=silent)' % a
+    red, used = rn + '[0]', rn + '[1]'
+    alloc_ok = {'np.zeros(%s.shape[0], dtype=%s.dtype)' % (b, b), 'np.zeros_like(%s)' % b, 'np.zeros(%s.shape, dtype=%s.dtype)' % (b, b), 'np.zeros(len(%s), dtype=%s.dtype)' % (b, b),
+                'np.zeros(shape=%s.shape[0], dtype=%s.dtype)' % (b, b)}
+    sc = [(t, v) for t, v, node in fl.stores]
+    okst = len(sc) == 1 and sc[0][1] == {'spsolve(%s, %s[%s], **kwargs)' % (red, b, used)}
+    tgt = sc[0][0] if sc else ''
+    base = tgt[:-len('[%s]' % used)] if tgt.endswith('[%s]' % used) else None
+    rets = [next(iter(r)) if len(r) == 1 else None for r in fl.returns]
+    ok = okst and base in alloc_ok and rets == [base]
+    chk.ob('R07.5', ok, SPARSE, 'solve', 'reduce, solve, scatter through the same index set',
+           expected='(A, U) = remove_null_cols(a); x = zeros like b; x[U] = spsolve(A, b[U]); return x', got={'stores': sc, 'returns': rets},
+           sample='solve: x[U] = spsolve(A, b[U]) with (A, U) = remove_null_cols(a)')
     # remove_null_cols: used_cols = unique(cols) of the first matrix; every matrix reduced by rows and columns
     pyrules.check_remove_null_cols(chk, 'R07.5')
+    from .symval import Flow
+
+    def contents(fl, fnode, expr):
+        """elements of a list-valued expression at the end of the function: literal elements, then what was appended to the name"""
+        if isinstance(expr, (ast.List, ast.Tuple)):
+            return [next(iter(fl.subst(e, fl.final))) if len(fl.subst(e, fl.final)) == 1 else None for e in expr.elts]
+        if isinstance(expr, ast.Name):
+            init = [n.value for n in ast.walk(fnode) if isinstance(n, ast.Assign) and len(n.targets) == 1 and isinstance(n.targets[0], ast.Name) and n.targets[0].id == expr.id]
+            if len(init) != 1 or not isinstance(init[0], ast.List):
+                return None
+            out = contents(fl, fnode, init[0])
+            for kind, recv, rvals, args, st in fl.events:
+                if kind == 'append' and recv == expr.id and len(args) == 1:
+                    out.append(next(iter(args[0])) if len(args[0]) == 1 else None)
+            return out
+        return None
     for rel, fname, getter in (('compmech/analysis/static.py', 'static', lambda mod: mod.function('static')),):
         mod = module(rel)
         f = getter(mod)
-        calls = [c for c in pyflow.calls_in(f) if getattr(c.func, 'id', '') == 'solve']
-        ok = len(calls) == 1 and [norm(x) for x in calls[0].args] == [f.args.args[0].arg, f.args.args[1].arg]
-        apps = [norm(c) for c in pyflow.calls_in(f) if isinstance(c.func, ast.Attribute) and c.func.attr == 'append']
-        ok = ok and apps == ['increments.append(1.0)', 'cs.append(c)']
-        chk.ob('R07.5', ok, rel, fname, 'linear solution reported at load factor 1', expected='c = solve(K, fext); increments [1.0], cs [c]', got=apps)
+        fl = Flow(f)
+        fl.final = fl.run()
+        K, F = f.args.args[0].arg, f.args.args[1].arg
+        rets = [r.value for r in ast.walk(f) if isinstance(r, ast.Return) and r.value is not None]
+        got = None
+        ok = len(rets) == 1 and isinstance(rets[0], ast.Tuple) and len(rets[0].elts) == 2
+        if ok:
+            got = [contents(fl, f, e) for e in rets[0].elts]
+            ok = got[0] in (['1.0'], ['1']) and got[1] == ['solve(%s, %s, silent=silent)' % (K, F)]
+        chk.ob('R07.5', ok, rel, fname, 'linear solution reported at load factor 1', expected='returns ([1.0], [solve(K, fext)])', got=got)
     am = module('compmech/analysis/analysis.py')
     f = am.method('Analysis', 'static')
+    fl = Flow(f)
+    fl.final = fl.run()
+    lin = []
+    for kind, recv, rvals, args, st in fl.events:
+        if kind == 'append' and len(args) == 1 and recv in ('self.cs', 'self.increments'):
+            tests = [(norm(t), pol) for t, pol in pyrules.enclosing_tests(f, st)]
+            if ('NLgeom', False) in tests or ('notNLgeom', True) in tests:
+                lin.append((recv, sorted(args[0])))
+    a0 = a1 = None
     calls = [c for c in pyflow.calls_in(f) if getattr(c.func, 'id', '') == 'solve']
-    ok = False
-    if len(calls) == 1:
-        tests = [(norm(t), pol) for t, pol in pyrules.enclosing_tests(f, calls[0])]
-        ok = ('NLgeom', False) in tests or ('notNLgeom', True) in tests
-        a0, a1 = [pyrules.resolve(f, x) for x in calls[0].args[:2]]
-        ok = ok and (a0 in ('k0', 'self.k0') or a0.startswith('self.calc_k0(')) and (a1 in ('fext', 'self.fext') or a1.startswith('self.calc_fext('))
-        apps = sorted(norm(c) for c in pyflow.calls_in(f) if isinstance(c.func, ast.Attribute) and c.func.attr == 'append')
-        ok = ok and apps == ['self.cs.append(c)', 'self.increments.append(1.0)']
+    cs_vals = [v for r, v in lin if r == 'self.cs']
+    inc_vals = [v for r, v in lin if r == 'self.increments']
+    ok = len(cs_vals) == 1 and len(cs_vals[0]) == 1 and inc_vals in ([['1.0']], [['1']])
+    if ok:
+        try:
+            call = ast.parse(cs_vals[0][0], mode='eval').body
+        except SyntaxError:
+            call = None
+        ok = isinstance(call, ast.Call) and getattr(call.func, 'id', '') == 'solve' and len(call.args) >= 2
+        if ok:
+            a0, a1 = norm(call.args[0]), norm(call.args[1])
+            ok = (a0 in ('self.k0',) or a0.startswith('self.calc_k0(')) and (a1 in ('self.fext',) or a1.startswith('self.calc_fext('))
     chk.ob('R07.5', ok, 'compmech/analysis/analysis.py', 'Analysis.static', 'linear branch solves (k0, fext)',
            expected='under `not NLgeom`: c = solve(k0, fext) with k0 = self.calc_k0(...) and fext = self.calc_fext(...) evaluated in this request; increments [1.0], cs [c]',
-           got=[norm(c) for c in calls] + (['operands resolve to %s, %s' % (a0, a1)] if len(calls) == 1 else []),
+           got=lin + (['operands resolve to %s, %s' % (a0, a1)] if a0 else []),
            detail='' if ok else 'a stiffness matrix or load vector that is not recomputed by this request (cached, or another quantity) is solved: the result does not satisfy K c = f of the present definition')
